@@ -12,8 +12,9 @@ CONSTANTS
   RootVias = {"file", "url"}
   Bug = "none"
 INVARIANT WellFormed
-INVARIANT NodeProtocol
+INVARIANT FirstRunGathers
 INVARIANT NodeBad
+INVARIANT NodeProtocol
 INVARIANT UdDelivered
 INVARIANT RootFetch
 INVARIANT GenuineGathers
@@ -21,5 +22,7 @@ INVARIANT GenuineVerifies
 INVARIANT AlteredFails
 INVARIANT Lossless
 INVARIANT ReloadedSameVerdict
+INVARIANT EarlierKept
+INVARIANT PrevKept
 INVARIANT Progress
 CHECK_DEADLOCK FALSE
